@@ -56,13 +56,22 @@ def shape_errors(impl):
     return errs
 
 
+def config_features_ev(po, ev):
+    return _features(po, ev)
+
+
 def config_features(ctx, po):
     """-> (inconsistent: [..], defects: [..]) from the witness configuration (roles, not lines).
     `inconsistent` = the user asked for something Rust syntax cannot express for the counterpart form in play
     (outside the claim, see DESIGN.md C17); `defects` = configurations known to expand to invalid code."""
-    from spec import Ev, GhostsInstr, ParentInstr, MapInstr, SimpleInstr
+    from spec import Ev
     mdl = ctx.model_of(po.res.pc)
     ev = Ev(po.env, mdl)
+    return _features(po, ev)
+
+
+def _features(po, ev):
+    from spec import GhostsInstr, ParentInstr, MapInstr, SimpleInstr
     spec = po.spec
     inc, feats = [], []
     named_g = any(isinstance(i, GhostsInstr) and any(d.ident[0] == 'n' for d in i.data) for i in spec.type_instrs)
@@ -103,6 +112,19 @@ def config_features(ctx, po):
             inc.append('struct-form+indexed-ghosts')
     if spec.kind == 'struct' and 'struct' in forms and idx_rename(spec.members):
         inc.append('struct-form+index-rename')
+
+    def name_rename(members):
+        for m in members:
+            for i in m.instrs:
+                if hasattr(i, 'inner'):
+                    i = i.inner(ev(i.ch))
+                if isinstance(i, MapInstr):
+                    r = ev(i.member)
+                    if r is not None and r[0] == 'n':
+                        return True
+        return False
+    if spec.kind == 'struct' and 'tuple' in forms and name_rename(spec.members):
+        inc.append('tuple-form+name-rename')
     if spec.kind == 'enum':
         for v in spec.members:
             hints = [ev(i.arg) for i in v.instrs if isinstance(i, SimpleInstr) and i.kind == 'type_hint']
